@@ -42,6 +42,7 @@ def parseOp (s : String) : Option Op :=
   | ["reload", t, n] => do some (.reload (← parseOid t) (← n.toInt?))
   | ["living"] => some .living
   | ["burn"] => some .burn
+  | ["zshb", n] => do some (.zshb (← n.toInt?))
   | ["mv", x] => do some (.mv (← parseOid x))
   | ["rp"] => some .rp
   | _ => none
@@ -90,6 +91,7 @@ def render : Ev → String
   | .moved i d => s!"r mv {oid i} {oid d}"
   | .movedNone i d => s!"r mv {oid i} {oid d} !none"
   | .hookMoved i => s!"hookend {oid i} !moved"
+  | .zshb o n => s!"r zshb {oid o} {n}"
   | .coBegin o => s!"cobegin {oid o}"
   | .coEnd o => s!"coend {oid o}"
   | .passLimit => "passlimit"
@@ -152,6 +154,7 @@ def parseEv (line : String) : Ev :=
     | ["r", "mv", i, d] => do some (.moved (← parseOid i) (← parseOid d))
     | ["r", "mv", i, d, "!none"] => do some (.movedNone (← parseOid i) (← parseOid d))
     | ["hookend", i, "!moved"] => do some (.hookMoved (← parseOid i))
+    | ["r", "zshb", o, n] => do some (.zshb (← parseOid o) (← n.toInt?))
     | ["cobegin", o] => do some (.coBegin (← parseOid o))
     | ["coend", o] => do some (.coEnd (← parseOid o))
     | ["passlimit"] => some .passLimit
